@@ -51,7 +51,9 @@ def main() -> int:
         ap.error("property id required")
     seed = int(os.environ.get("VERIF_SEED", "0"))
     mod = importlib.import_module(f"props.{a.prop.lower()}")
-    ctx = common.Ctx(a.prop.upper(), a.tier, seed, level=getattr(mod, "LEVEL", "proof"))
+    # a replay must not delete the replay files of an earlier run (Ctx clears replays/<prop>_<tier>_*)
+    ctx = common.Ctx(a.prop.upper(), "replay" if a.replay else a.tier, seed,
+                     level=getattr(mod, "LEVEL", "proof"))
     try:
         if a.replay:
             mod.replay(ctx, a.replay)
